@@ -10,7 +10,7 @@ base = json.load(open("/root/.vp/BASELINE.json"))
 stable = set(base["stable_pass"])
 with tempfile.NamedTemporaryFile(suffix=".xml") as tf:
     subprocess.run(["/venv/bin/python", "-m", "pytest", "-q", "-p", "no:cacheprovider", "--timeout=900",
-                    "--continue-on-collection-errors", "--junitxml=" + tf.name], cwd="/repo",
+                    "--continue-on-collection-errors", "--junitxml=" + tf.name], cwd=(sys.argv[1] if len(sys.argv) > 1 else "/repo"),
                    stdout=subprocess.DEVNULL, stderr=subprocess.DEVNULL, env={"PYTHONDONTWRITEBYTECODE": "1", "PATH": "/usr/bin:/bin"})
     root = ET.parse(tf.name).getroot()
 passed = set()
